@@ -169,7 +169,16 @@ func TestReplay(t *testing.T) {
 	}
 	h := run.Start(t, "C15")
 	defer h.Finish()
-	if v, _ := execute(h, &tr, nil); v != nil {
+	v, m := execute(h, &tr, nil)
+	if m != nil {
+		k, classes := m.ntKey()
+		for f, n := range m.feats {
+			h.Class("tx-"+f, n)
+		}
+		h.Eval(k, classes, nil)
+		h.Note("decided: " + k)
+	}
+	if v != nil {
 		h.Fail(t, v.oracle, v.sig(), &tr, "%s", v.msg)
 	}
 }
